@@ -80,23 +80,47 @@ def run(c):
             key = json.dumps({k: v for k, v in e.items() if k not in ("cfg", "tag")}, sort_keys=True)
             distinct.setdefault(key, e)
     traces += nproc
+    # (4) steady state: threads repeating their own operations concurrently (shared scratch / cached schedules)
+    hot_total = 0
+    hot_runs = [(16, 400), (4, 1500), (48, 150)] * (4 if c.thorough else 1)
+    for ri, (t, iters) in enumerate(hot_runs):
+        rc, outp = vlib.run_harness_rc(binary, ["c18-hot", "--threads", str(t), "--iters", str(iters), "--seed", str(c.seed + ri)], out=trace)
+        if rc != 0:
+            c.violation({"ev": "hot", "res": "crash", "threads": t}, [{"rc": rc, "threads": t, "output": outp[-2000:]}], "process with %d concurrently hashing threads crashed (rc=%d)" % (t, rc))
+            continue
+        for e in vlib.read_ndjson(trace):
+            hot_total += 1
+            e["cfg"] = "hot/threads=%d/proc=%d" % (t, ri)
+            key = json.dumps({k: v for k, v in e.items() if k not in ("cfg", "tag")}, sort_keys=True)
+            distinct.setdefault(key, e)
+    traces += len(hot_runs)
+    c.cov["hot_runs_threads_iterations"] = hot_runs
+    c.cov["hot_records"] = hot_total
     groups = {}
     for e in distinct.values():
         if e["ev"] == "ks":
             groups.setdefault("TraceC01", []).append(e)
         elif e["ev"] == "digest":
             groups.setdefault(next(v for k, v in FAMILY.items() if e["alg"].startswith(k)), []).append(e)
+        elif e["ev"] == "tf":
+            groups.setdefault("TraceTF", []).append(e)
         else:
             c.violation({"ev": e["ev"], "res": "panic"}, [e], "a thread panicked during concurrent first use: %s" % e)
 
     def mutate(e):
-        for f in ("after", "out"):
+        for f in ("after", "out", "y"):
             if f in e and e[f]:
                 e[f][0] ^= 2
                 return
     for module, recs in sorted(groups.items()):
         vlib.validate_stateless(c, module, recs, lambda e: {"ev": e["ev"], "alg": e.get("alg", e.get("variant")), "res": e["res"].split(":")[0], "cfg": e["cfg"].split("/proc")[0]},
-                                mutate, "cold concurrent first use", timeout=6000, workers=12)
+                                mutate, "concurrent use (cold first calls / steady state)", timeout=6000, workers=12, env={"MODE": "enc"} if module == "TraceTF" else None)
+        if module == "TraceTF":
+            def mutate_inv(e):
+                e["z"][0] ^= 2
+                e["y"][0] ^= 2
+            vlib.validate_stateless(c, module, recs, lambda e: {"ev": e["ev"], "alg": "tf%d" % e["size"], "res": e["res"].split(":")[0], "cfg": e["cfg"].split("/proc")[0]},
+                                    mutate_inv, "concurrent use (steady state, inverse)", timeout=6000, workers=12, env={"MODE": "inv"})
     c.cov["evaluations"] += total
     c.cov["distinct_nontrivial"] += len(distinct)
     c.cov["cold_processes"] = nproc
@@ -111,6 +135,8 @@ def run(c):
                      "explained by that instance's own history. (3) freshly exec'd processes (cold lazy_static / CPU-feature cache) release 2..64 threads through a barrier; every thread makes the "
                      "process's first calls into Groestl-224/256/384/512 (all six function-pointer cells), BLAKE, JH, Skein and three ChaCha types, each starting with a different algorithm; "
                      "events carry (thread, per-thread sequence) only; every distinct (input, output) is validated by TLC against the function specifications. "
+                     "(4) steady state: 4/16/48 threads repeat their own hash (Skein with 1..8 output blocks, BLAKE, JH, Groestl), ChaCha and Threefish operations hundreds of times concurrently; the first record "
+                     "and every record differing from it are validated the same way (shared scratch or cached schedules would produce differing, rejected records). "
                      "evaluations = interleaved calls + cold events; distinct counts distinct call records / distinct (input, output) pairs.")
     c.assumptions += ["real interleavings are chosen by the OS scheduler; a narrow race window can be missed", "lazy_static / std::sync::Once / std_detect are outside the repository and are modelled, not hooked"]
     return c.finish()
